@@ -42,7 +42,9 @@ def mkrow(spec):
 def apply_history(H, W, hist, ctor_kwargs=None):
     """run a history of assignments on the real FSArray and on the cell-grid model -> '' or description"""
     from curtsies.formatstringarray import FSArray, fsarray
-    a = FSArray(H, W, **(ctor_kwargs or {}))
+    ck = dict(ctor_kwargs or {})
+    cargs = tuple(ck.pop("_args", ()))          # positional formatting arguments of the constructor
+    a = FSArray(H, W, *cargs, **ck)
     model = [[BL] * W for _ in range(H)]
     for step, (r0, r1, c0, c1, blockspec, as_array, int_index) in enumerate(hist):
         block = [mkrow(b) for b in blockspec]
@@ -171,7 +173,7 @@ def _rand_history(seed):
         block = [_rand_block_row(rng, c1 - c0, W) for _ in range(nrows)]
         hist.append((r0, r1, c0, c1, block, rng.random() < .15, int_index))
         h = max(h, r1)
-    ctor = rng.choice([None, None, {"bg": "blue"}, {"bold": True}])
+    ctor = rng.choice([None, None, {"bg": "blue"}, {"bold": True}, {"_args": ["red"]}, {"_args": ["on_blue", "bold"]}, {"_args": ["underline"], "fg": "green"}])
     return H, W, hist, ctor
 
 
